@@ -376,6 +376,30 @@ func comparatorAscending(fn *ssa.Function) bool {
 		return false
 	}
 	a, b := fn.Params[0], fn.Params[1]
+	// delegation to the standard three-way compare: return cmp.Compare(a.Ord, b.Ord)
+	deleg := false
+	core.Instrs(fn, func(in ssa.Instruction) {
+		ret, ok := in.(*ssa.Return)
+		if !ok || len(ret.Results) != 1 {
+			return
+		}
+		c, ok := ret.Results[0].(*ssa.Call)
+		if !ok {
+			return
+		}
+		cl := core.CommonCallee(c.Common())
+		if cl == nil || cl.Pkg() == nil || cl.Pkg().Path() != "cmp" || cl.Name() != "Compare" || len(c.Call.Args) != 2 {
+			return
+		}
+		_, bx := core.LoadedField(c.Call.Args[0])
+		_, by := core.LoadedField(c.Call.Args[1])
+		if bx == ssa.Value(a) && by == ssa.Value(b) {
+			deleg = true
+		}
+	})
+	if deleg && len(fn.Blocks) == 1 {
+		return true
+	}
 	cfg := &core.SymConfig{Fn: fn}
 	paths := core.Summarize(cfg)
 	ta, tb := a.Name()+".Ord", b.Name()+".Ord"
